@@ -4,6 +4,7 @@ Ops2 <- NoOps
 InjectBytes <- InjFew
 Depths <- DepthsFew
 AllowInPlace = FALSE
+SeedsUsed <- ShortSeeds
 Precs <- PrecsFew
 INVARIANTS TypeOK ErrGivesOriginalInv
 CHECK_DEADLOCK FALSE
